@@ -508,6 +508,20 @@ theorem C04_parse_error_iff (p : String) (ss : List Schema) :
 theorem C04_undefined_schema_iff (f : File) (s : Schema) : hasError (pass1 f s) = false ↔ ClausesWF f s :=
   pass1_noError_iff f s
 
+/-- **the import look-up against a relational specification** (`HandsOut`: declared there / handed out by a whole-USE'd schema / a USE
+    item visible under the name whose source hands its original name out): whatever `SCOPEfind_for_rename` finds is handed out — for
+    every fuel, visiting order and with or without the fall-back scan -/
+theorem C04_import_lookup_sound (f : File) (fb : Bool) (pr : String → Bool) (fuel : Nat) (T n : String) (o : Obj)
+    (h : exportOf f fb pr fuel T n = some o) : HandsOut f T n o :=
+  exportOf_sound f fb pr fuel T n o h
+
+/-- … and what is handed out is found from some fuel on (code as it is: with the fall-back scan; no two USE items of a schema under
+    one visible name).  `_partial`: "from some fuel on", not "with the fuel the pass uses" — that `importFuel f` suffices is tied by
+    the correspondence (chains and rings of imports under permuted schema names) only -/
+theorem C04_import_lookup_complete_partial (f : File) (hnd : NoDupAlias f) (pr : String → Bool) (T n : String) (o : Obj)
+    (h : HandsOut f T n o) : ∃ k, ∀ fuel, k ≤ fuel → (exportOf f true pr fuel T n).isSome = true :=
+  exportOf_complete f hnd pr h
+
 /-- pass 2 reports an ERROR for a schema exactly when an imported item does not resolve in the schema it is imported from
     (as far as that schema can hand it out at this point of the pass) or one visible name stands for two different objects -/
 theorem C04_imports_iff (f : File) (fb : Bool) (s : Schema) : hasError (pass2 f fb s) = false ↔ ImportsWF f fb s :=
